@@ -214,16 +214,22 @@ def real_exec(proc: Any, node: Any) -> str:
 
 
 def real_wf(ids: Ids, root: Any) -> str:
-	bad = []
-	for n in [*root.procedural(), root]:
-		v = wf_clauses(n)
-		if v:
-			bad.append(f"{ids.of(n)}:{'+'.join(v)}")
-	return ','.join(bad) or 'ok'
+	try:
+		bad = []
+		for n in [*root.procedural(), root]:
+			v = wf_clauses(n)
+			if v:
+				bad.append(f"{ids.of(n)}:{'+'.join(v)}")
+		return ','.join(bad) or 'ok'
+	except Exception as e:  # noqa: BLE001
+		return 'raised ' + canon_exc(e)
 
 
 def real_procedural(ids: Ids, root: Any) -> str:
-	return ','.join(str(ids.of(n)) for n in root.procedural())
+	try:
+		return ','.join(str(ids.of(n)) for n in root.procedural())
+	except Exception as e:  # noqa: BLE001
+		return 'raised ' + canon_exc(e)
 
 
 # ---------------------------------------------------------------------------------------------
@@ -287,12 +293,16 @@ def run_synth_case(spec: dict[str, Any]) -> tuple[dict[str, Any], list[str], lis
 	"""One real Procedure over synthetic trees; spec additionally has fallback, specific {clsidx: beh with node indices},
 	execs [node idx], roots [node idx] (every exec / nest target)."""
 	from rogw.tranp.semantics.procedure import Procedure
-	nodes, classes = build_synth(spec)
 	ids = Ids()
 	ex = Exporter(ids)
 	slot_of: dict[int, int] = {}
-	for r in spec['roots']:
-		slot_of[r] = ex.export(nodes[r])
+	try:
+		nodes, classes = build_synth(spec)
+		for r in spec['roots']:
+			slot_of[r] = ex.export(nodes[r])
+	except Exception as e:  # noqa: BLE001 - the real Node machinery (prop_keys / Meta.embed / getattr) raised: always a disagreement
+		return ({'kind': spec.get('kind', 'synth'), 'nodes': len(spec['nodes']), 'wf': False, 'violations': {}, 'outcomes': {'export-raised': 1}, 'nested': False},
+			['reset'], ['real code raised ' + canon_exc(e)])
 	lines = ['reset', *ex.lines]
 	real = ['ok'] * len(lines)
 	proc: Any = Procedure()
@@ -337,7 +347,7 @@ def gen_synth_spec(rng: random.Random, dirty: bool) -> dict[str, Any]:
 	"""Three layers of trees: handlers of layer-k classes may nest `exec` into trees of lower layers only (termination)."""
 	classes: list[dict[str, Any]] = []
 	level: list[int] = []
-	keypool = ['a', 'b', 'c', 'items', 'value', 'body']
+	keypool = ['a', 'ab', 'b', 'items', 'item', 'value', 'body']  # names that are prefixes of each other
 	for lv in range(3):
 		for j in range(rng.randint(2, 4)):
 			first = lv == 0 and j == 0  # a plain leaf class always exists (generation terminates)
@@ -357,6 +367,7 @@ def gen_synth_spec(rng: random.Random, dirty: bool) -> dict[str, Any]:
 			classes.append({'terminal': terminal, 'keys': keys, 'base': base})
 			level.append(lv)
 	nodes: list[dict[str, Any]] = []
+	node_level: list[int] = []
 
 	def all_keys(ci: int) -> list[list[Any]]:
 		c = classes[ci]
@@ -364,6 +375,9 @@ def gen_synth_spec(rng: random.Random, dirty: bool) -> dict[str, Any]:
 		return inherited + c['keys']
 
 	def gen_node(max_level: int, depth: int) -> int:
+		reusable = [i for i in range(len(nodes)) if node_level[i] <= max_level]
+		if reusable and rng.random() < 0.06:
+			return rng.choice(reusable)  # the same node object at a second position (equal ids in different places)
 		cands = [i for i in range(len(classes)) if level[i] <= max_level]
 		if depth <= 0:
 			cands = [i for i in cands if not all_keys(i)]
@@ -385,11 +399,12 @@ def gen_synth_spec(rng: random.Random, dirty: bool) -> dict[str, Any]:
 		if dirty and rng.random() < 0.1 and depth > 0:
 			under = [gen_node(max_level, depth - 1) for _ in range(rng.randint(1, 2))]
 		nodes.append({'cls': ci, 'vals': vals, 'under': under})
+		node_level.append(max_level)
 		return len(nodes) - 1
 
 	roots_by_level: list[list[int]] = []
 	for lv in range(3):
-		roots_by_level.append([gen_node(lv, rng.randint(1, 4)) for _ in range(rng.randint(1, 2))])
+		roots_by_level.append([gen_node(lv, rng.choice([1, 2, 2, 3, 3, 4, 7])) for _ in range(rng.randint(1, 2))])
 	fallback = rng.choices(['sig', 'id', 'none', 'raise:' + rng.choice(RAISES)], [85, 5, 5 if dirty else 1, 4 if dirty else 1])[0]
 	specific: dict[str, str] = {}
 	for ci in range(len(classes)):
@@ -417,16 +432,23 @@ def gen_synth_spec(rng: random.Random, dirty: bool) -> dict[str, Any]:
 # real trees
 
 
+def is_curated(path: str) -> bool:
+	"""Modules written for tranp (its transpile targets): the node definitions must be able to read them. tranp's own
+	sources are only partly inside the supported subset (e.g. `except X:` without `as` has no Catch.symbol)."""
+	rel = os.path.relpath(path, common.REPO)
+	return rel.startswith(('rogw/tranp/compatible/', 'example/')) or '/fixtures/' in rel
+
+
 def real_files(ctx: Ctx, rng: random.Random) -> list[str]:
 	files = [os.path.join(common.REPO, f) for f in REAL_QUICK if os.path.exists(os.path.join(common.REPO, f))]
 	pool = sorted(set(
-		glob.glob(os.path.join(common.REPO, 'rogw/tranp/compatible/libralies/**/*.py'), recursive=True)
+		glob.glob(os.path.join(common.REPO, 'rogw/tranp/compatible/**/*.py'), recursive=True)
 		+ glob.glob(os.path.join(common.REPO, 'example/**/*.py'), recursive=True)
 		+ glob.glob(os.path.join(common.REPO, 'tests/unit/**/fixtures/*.py'), recursive=True)
 		+ glob.glob(os.path.join(common.REPO, 'rogw/tranp/**/*.py'), recursive=True)))
 	pool = [f for f in pool if f not in files and os.path.getsize(f) > 0]
 	rng.shuffle(pool)
-	return files[:ctx.scale(5, len(files))] + pool[:ctx.scale(3, 70)]
+	return files[:ctx.scale(5, len(files))] + pool[:ctx.scale(3, 90)]
 
 
 def load_entrypoint(app: Any, src: str) -> Any | None:
@@ -660,7 +682,7 @@ def stream_corpus(ctx: Ctx) -> Stream:
 def stream_synth(ctx: Ctx, dirty: bool) -> Stream:
 	name = 'proc-malformed' if dirty else 'proc-synth'
 	rng = ctx.sub_rng(name)
-	cases = [run_synth_case(gen_synth_spec(rng, dirty)) for _ in range(ctx.scale(250, 4000))]
+	cases = [run_synth_case(gen_synth_spec(rng, dirty)) for _ in range(ctx.scale(400, 4000))]
 	st = common.correspond(name, cases, 'proc', classify=classify_synth)
 	viol: Counter[str] = Counter()
 	for d, _, _ in cases:
@@ -682,7 +704,7 @@ def stream_real(ctx: Ctx) -> tuple[Stream, list[dict[str, Any]]]:
 		ep = load_entrypoint(app, src)
 		if ep is None:
 			continue
-		c = run_real_case(rng, os.path.relpath(f, common.REPO), ep, 'real')
+		c = run_real_case(rng, os.path.relpath(f, common.REPO), ep, 'real' if is_curated(f) else 'real-uncurated')
 		if c is None:
 			continue
 		descs.append(c[0])
@@ -701,7 +723,7 @@ def stream_generated(ctx: Ctx) -> tuple[Stream, list[dict[str, Any]]]:
 	cases = []
 	descs = []
 	rejected = 0
-	for i in range(ctx.scale(60, 1200)):
+	for i in range(ctx.scale(100, 1200)):
 		src = gen.program()
 		ep = load_entrypoint(app, src)
 		if ep is None:
@@ -743,38 +765,89 @@ def spec_walk(root: Any) -> tuple[list[Any], list[dict[str, Any]]]:
 	return order, expect
 
 
+class _Boom(Exception):
+	"""raised on purpose by the history part of the oracle (a handler failure in an earlier run)"""
+
+
+class IdentityRun:
+	"""One real Procedure shared by many checks. Handlers return (node, visiting index, run id); every event is compared
+	with the independent property walk. A check may start nested checks from inside a handler call (`nest`) and may be
+	preceded by deliberately failing runs on the same Procedure (history)."""
+
+	def __init__(self) -> None:
+		from rogw.tranp.semantics.procedure import Procedure
+		self.proc: Any = Procedure()
+		self.proc.on('on_fallback', self.fb)
+		self.frames: list[dict[str, Any]] = []
+		self.run_ids = itertools.count()
+		self.nested_bad: list[tuple[str, str]] = []
+
+	def fb(self, node: Any, **kw: Any) -> tuple[Any, int, int]:
+		frame = self.frames[-1]
+		idx = len(frame['calls'])
+		frame['calls'].append((node, kw))
+		if frame['fail_at'] == idx:
+			raise _Boom()
+		plan = frame['nest'].get(idx)
+		if plan is not None:
+			bad = self.check(plan)
+			if bad:
+				self.nested_bad.append((f'nested:{bad[0]}', f'nested run started from call #{idx}: {bad[1]}'))
+		return node, idx, frame['id']
+
+	def fail_once(self, root: Any, at: int) -> tuple[str, str] | None:
+		"""A run whose handler raises at call `at`: must surface as Errors.Fatal (procedure.py:173-174)."""
+		frame = {'calls': [], 'nest': {}, 'fail_at': at, 'id': next(self.run_ids)}
+		self.frames.append(frame)
+		try:
+			self.proc.exec(root)
+		except Exception as e:  # noqa: BLE001
+			if canon_exc(e) != 'Errors.Fatal':
+				return ('handler-error-wrap', f'a handler exception surfaced as {canon_exc(e)}, procedure.py:174 promises Errors.Fatal')
+			return None
+		finally:
+			self.frames.pop()
+		return ('handler-error-swallowed', 'exec returned although a handler raised')
+
+	def check(self, root: Any, nest: dict[int, Any] | None = None) -> tuple[str, str] | None:
+		"""(key, what) when the real run violates the property on this tree."""
+		try:
+			order, expect = spec_walk(root)
+		except Exception as e:  # noqa: BLE001
+			return (f'getter-raises:{canon_exc(e)}', f'a property getter raised {canon_exc(e)} during the property walk')
+		frame = {'calls': [], 'nest': nest or {}, 'fail_at': None, 'id': next(self.run_ids)}
+		depth = len(stacks_of(self.proc))
+		below = [list(f) for f in stacks_of(self.proc)]
+		self.frames.append(frame)
+		try:
+			res = self.proc.exec(root)
+		except Exception as e:  # noqa: BLE001
+			calls = frame['calls']
+			i = len(calls)
+			at = type(order[i]).__name__ if i < len(order) else '?'
+			bad = first_misaligned(order, expect, calls, frame['id'])
+			return (f'exec-raises:{canon_exc(e).split(":")[0]}:{bad[0] if bad else at}', f'exec raised {canon_exc(e)} after {i} handler calls; {bad[1] if bad else ""}')
+		finally:
+			self.frames.pop()
+		calls = frame['calls']
+		bad = first_misaligned(order, expect, calls, frame['id'])
+		if bad:
+			return bad
+		if len(calls) != len(order):
+			return (f'visit-count:{type(root).__name__}', f'{len(calls)} handler calls for {len(order)} nodes of the property walk')
+		if not isinstance(res, tuple) or res[0] is not calls[-1][0] or res[1:] != (len(order) - 1, frame['id']):
+			return (f'final:{type(root).__name__}', 'exec did not return the result of the root handler')
+		now = stacks_of(self.proc)
+		if len(now) != depth or any(a != b for a, b in zip(now, below)):
+			return (f'frames-disturbed:{type(root).__name__}', f'stack-of-stacks had {depth} frame(s) before and has {len(now)} after a successful exec (or a lower frame changed)')
+		return None
+
+
 def identity_oracle(root: Any) -> tuple[str, str] | None:
-	"""(key, what) when the real run violates the property on this tree."""
-	from rogw.tranp.semantics.procedure import Procedure
-	order, expect = spec_walk(root)
-	calls: list[tuple[Any, dict[str, Any]]] = []
-
-	def fb(node: Any, **kw: Any) -> tuple[Any, int]:
-		calls.append((node, kw))
-		return node, len(calls) - 1
-
-	proc: Any = Procedure()
-	proc.on('on_fallback', fb)
-	try:
-		res = proc.exec(root)
-	except Exception as e:  # noqa: BLE001
-		i = len(calls)
-		at = type(order[i]).__name__ if i < len(order) else '?'
-		bad = first_misaligned(order, expect, calls)
-		return (f'exec-raises:{canon_exc(e).split(":")[0]}:{bad[0] if bad else at}', f'exec raised {canon_exc(e)} after {i} handler calls; {bad[1] if bad else ""}')
-	bad = first_misaligned(order, expect, calls)
-	if bad:
-		return bad
-	if len(calls) != len(order):
-		return (f'visit-count:{type(root).__name__}', f'{len(calls)} handler calls for {len(order)} nodes of the spec walk')
-	if res[0] is not root or res[1] != len(order) - 1:
-		return (f'final:{type(root).__name__}', 'exec did not return the result of the root handler')
-	if stacks_of(proc):
-		return (f'frames-left:{type(root).__name__}', f'{len(stacks_of(proc))} frame(s) left after a successful exec')
-	return None
+	return IdentityRun().check(root)
 
 
-def first_misaligned(order: list[Any], expect: list[dict[str, Any]], calls: list[tuple[Any, dict[str, Any]]]) -> tuple[str, str] | None:
+def first_misaligned(order: list[Any], expect: list[dict[str, Any]], calls: list[tuple[Any, dict[str, Any]]], run_id: int | None = None) -> tuple[str, str] | None:
 	for i, (node, kw) in enumerate(calls):
 		if i >= len(order):
 			return (f'extra-visit:{type(node).__name__}', f'handler call #{i} for {node!r} beyond the nodes reachable through properties')
@@ -790,6 +863,10 @@ def first_misaligned(order: list[Any], expect: list[dict[str, Any]], calls: list
 				return (f'event-shape:{cls}.{k}', f'{cls}.{k}: list/single mismatch')
 			got_l = got if isinstance(got, list) else [got]
 			want_l = want if isinstance(want, list) else [want]
+			if any(not isinstance(g, tuple) for g in got_l):
+				return (f'event-foreign:{cls}.{k}', f'{cls}.{k} received something no handler returned')
+			if run_id is not None and any(g[2] != run_id for g in got_l):
+				return (f'event-other-run:{cls}.{k}', f'{cls}.{k} received a result of another (nested/earlier) run')
 			if [g[1] for g in got_l] != want_l:
 				return (f'event-operand:{cls}.{k}', f'{cls}.{k} received results of positions {[g[1] for g in got_l]}, its own nodes are at {want_l}')
 			vals = getattr(node, k)
@@ -815,7 +892,11 @@ def class_table_findings() -> tuple[list[tuple[str, str]], dict[str, int]]:
 	classes = sorted({c for c in subs(Node) if c.__module__.startswith('rogw.')}, key=lambda c: c.__name__)
 	stats = {'classes': len(classes), 'with_props': 0, 'list_props': 0, 'single_props': 0}
 	for c in classes:
-		keys = c.prop_keys()
+		try:
+			keys = c.prop_keys()
+		except Exception as e:  # noqa: BLE001
+			bad.append((f'wf:prop-keys-raises:{c.__name__}', f'{c.__name__}.prop_keys() raised {canon_exc(e)}'))
+			continue
 		stats['with_props'] += bool(keys)
 		if len(set(keys)) != len(keys):
 			bad.append((f'wf:duplicate-key:{c.__name__}', f'{c.__name__}.prop_keys() repeats a key: {keys}'))
@@ -834,30 +915,92 @@ def class_table_findings() -> tuple[list[tuple[str, str]], dict[str, int]]:
 	return bad, stats
 
 
+def safe_wf(root: Any) -> list[tuple[str, str]]:
+	try:
+		return [(type(n).__name__, c) for n in [*root.procedural(), root] for c in wf_clauses(n)]
+	except Exception as e:  # noqa: BLE001
+		return [(type(root).__name__, f'wf-evaluation-raised:{canon_exc(e)}')]
+
+
+def check_tree_set(rng: random.Random, name: str, roots: list[Any], res: SearchResult, hist: Counter[str], notes: list[str],
+		source: str | None, must_hold: bool) -> None:
+	"""The law on a set of trees sharing ONE Procedure: plain run, repeated run, run after failed runs (stale frames),
+	run with nested runs started from inside handler calls. `must_hold`: the trees are known to be processable
+	(real modules, well-formed synthetic trees) so any exception of the real code is a finding."""
+	run = IdentityRun()
+	for n, root in enumerate(roots):
+		res.cases += 1
+		mode = n % 4
+		bad = None
+		try:
+			visited = len(spec_walk(root)[0])
+		except Exception as e:  # noqa: BLE001
+			if must_hold:
+				bad = (f'getter-raises:{canon_exc(e)}', f'a property getter raised {canon_exc(e)}')
+			else:
+				hist[f'property getter raised {canon_exc(e)}'] += 1
+				continue
+			visited = 0
+		if bad is None and mode == 1:
+			bad = run.fail_once(root, rng.randrange(visited)) or run.fail_once(root, visited - 1)
+			hist['history: run after failed runs on the same Procedure'] += 1
+		if bad is None and mode == 2 and len(roots) > 1:
+			others = [r for r in roots if r is not root] or roots
+			nest = {rng.randrange(visited): rng.choice(others) for _ in range(rng.randint(1, 3))}
+			bad = run.check(root, nest)
+			if bad is None and run.nested_bad:
+				bad = run.nested_bad[0]
+			run.nested_bad = []
+			hist['nested: runs started from inside handler calls'] += 1
+		if bad is None:
+			bad = run.check(root)
+		if bad is None and mode == 3:
+			bad = run.check(root)
+			hist['history: repeated run on the same Procedure'] += 1
+		wf_bad = safe_wf(root)
+		hist['trees ok' if not bad else 'trees violating'] += 1
+		for cls, c in wf_bad:
+			hist[f'WF violated: {c} at {cls}'] += 1
+		if wf_bad and not bad:
+			notes.append(f'WF violated without visible misalignment in {name}: {wf_bad[:3]}')
+		if bad:
+			key, what = bad
+			res.findings.append(Finding(key=key, what=f'{what} [{name}]' + (f' WF: {wf_bad[:3]}' if wf_bad else ''),
+				replay={'source_name': name, 'root': getattr(root, 'full_path', '?'), 'source': source, 'wf': wf_bad[:10], 'mode': mode}))
+			run = IdentityRun()
+
+
 def search_identity(ctx: Ctx, real_descs: list[dict[str, Any]], gen_descs: list[dict[str, Any]]) -> SearchResult:
 	rng = ctx.sub_rng('identity')
-	res = SearchResult('identity-valued run vs independent property walk (real Procedure, real node trees), WF of every real tree and class')
+	res = SearchResult('identity-valued runs vs independent property walk on the real Procedure: real modules, generated programs, well-formed synthetic trees; shared Procedure, repeated / nested / after-failure runs; WF of every tree and class')
 	app = common.MemApp(ctx.tmpdir())
 	hist: Counter[str] = Counter()
 	seen: set[str] = set()
-	table_bad, stats = class_table_findings()
+	try:
+		table_bad, stats = class_table_findings()
+	except Exception as e:  # noqa: BLE001
+		table_bad, stats = [(f'wf:class-table-raises:{canon_exc(e)}', f'reading the class table raised {canon_exc(e)}')], {'classes': 0}
 	res.cases += stats['classes']
 	hist['node classes checked'] = stats['classes']
 	for key, what in table_bad:
-		# a static violation is a defect of the node definitions only when a tree can exhibit it; report it, the dynamic oracle decides
 		hist[key] += 1
-		ctx.notes.append(f'WF (static): {what}')
-	sources: list[tuple[str, str]] = []
+		if 'raises' in key or 'annotation-missing' in key:
+			# procedure.py:209 / node.py:193 would raise for every node of that class: the run cannot succeed
+			res.findings.append(Finding(key=key, what=what, replay={'class_table': what}))
+		else:
+			# a static WF violation is a defect only when a tree exhibits it; the dynamic oracle decides
+			ctx.notes.append(f'WF (static): {what}')
+	sources: list[tuple[str, str, bool]] = []
 	for f in real_files(ctx, rng):
 		with open(f, encoding='utf-8') as fh:
-			sources.append((os.path.relpath(f, common.REPO), fh.read()))
+			sources.append((os.path.relpath(f, common.REPO), fh.read(), is_curated(f)))
 	gen = ProgGen(rng)
 	for i in range(ctx.scale(150, 3000)):
-		sources.append((f'generated#{i}', gen.program()))
+		sources.append((f'generated#{i}', gen.program(), False))
 	for d in gen_descs:
 		if d.get('wf', 'ok') != 'ok' or d.get('unstable') or d.get('export_error'):
-			sources.append((d['file'], d['source']))
-	for name, src in sources:
+			sources.append((d['file'], d['source'], False))
+	for name, src, must_hold in sources:
 		ep = load_entrypoint(app, src)
 		if ep is None:
 			hist['outside grammar'] += 1
@@ -865,27 +1008,28 @@ def search_identity(ctx: Ctx, real_descs: list[dict[str, Any]], gen_descs: list[
 		roots = [ep]
 		try:
 			order, _ = spec_walk(ep)
-		except Exception as e:  # noqa: BLE001
-			hist[f'property getter raised {canon_exc(e)}'] += 1
-			continue
-		inner = [n for n in order if n.can_expand and n.prop_keys() and n is not ep]
-		roots.extend(rng.sample(inner, min(len(inner), 4)))
-		for root in roots:
-			res.cases += 1
-			bad = identity_oracle(root)
-			wf_bad = [(type(n).__name__, c) for n in [*root.procedural(), root] for c in wf_clauses(n)]
-			hist['trees ok' if not bad else 'trees violating'] += 1
-			seen.add(f'{name}:{root.full_path}')
-			for cls, c in wf_bad:
-				hist[f'WF violated: {c} at {cls}'] += 1
-			if wf_bad and not bad:
-				ctx.notes.append(f'WF violated without visible misalignment in {name}: {wf_bad[:3]}')
-			if bad:
-				key, what = bad
-				res.findings.append(Finding(key=key, what=f'{what} [{name}]' + (f' WF: {wf_bad[:3]}' if wf_bad else ''),
-					replay={'source_name': name, 'root': root.full_path, 'source': src if name.startswith('generated') else None, 'wf': wf_bad[:10]}))
+			inner = [n for n in order if n.can_expand and n.prop_keys() and n is not ep]
+			roots.extend(rng.sample(inner, min(len(inner), 5)))
+		except Exception:  # noqa: BLE001 - reported by check_tree_set
+			order = []
+		seen.add(name)
+		check_tree_set(rng, name, roots, res, hist, ctx.notes, src if name.startswith('generated') else None, must_hold)
 		if len(res.samples) < 2:
 			res.samples.append({'source': name, 'visited': len(order), 'roots': len(roots)})
+	# well-formed synthetic shapes (several list properties, empty lists, shared node objects, deep chains)
+	srng = ctx.sub_rng('identity-synth')
+	for i in range(ctx.scale(150, 2500)):
+		spec = gen_synth_spec(srng, False)
+		try:
+			nodes, _ = build_synth(spec)
+		except Exception as e:  # noqa: BLE001
+			res.findings.append(Finding(key=f'synth-build-raises:{canon_exc(e)}', what=f'building synthetic Node subclasses raised {canon_exc(e)}', replay={'spec': spec}))
+			break
+		seen.add(f'synth#{i}')
+		before = len(res.findings)
+		check_tree_set(srng, f'synth#{i}', [nodes[r] for r in spec['roots']], res, hist, ctx.notes, None, True)
+		for f in res.findings[before:]:
+			f.replay['spec'] = spec
 	for d in real_descs + gen_descs:
 		for u in d.get('unstable', []):
 			hist[f'unstable property {u}'] += 1
@@ -893,6 +1037,8 @@ def search_identity(ctx: Ctx, real_descs: list[dict[str, Any]], gen_descs: list[
 				replay={'source_name': d['file'], 'source': d.get('source')}))
 		if d.get('export_error'):
 			hist[f"export error {d['export_error']}"] += 1
+			if d['kind'] == 'real':
+				res.findings.append(Finding(key=f"getter-raises:{d['export_error']}", what=f"exporting {d['file']} raised {d['export_error']}", replay={'source_name': d['file']}))
 	res.distinct = len(seen)
 	res.histogram = dict(hist)
 	res.note = f'class table: {json.dumps(stats)}'
